@@ -1140,27 +1140,50 @@ def rpx_rules(ctx, prefix):
     ok = not probs
     obs.append(ob("%s.expr/unit-test" % prefix, ok, where, "; ".join(probs) if probs else "the vw token is built exactly when the unit is `rpx`; any other unit is copied",
                   witness=None if ok else "0rpx / other guarded values keep the unit rpx"))
-    # new value expression
-    nv = [n for n in sir.walk(f.body) if n.get("k") == "local" and n["pat"].get("name") == "new_value"]
+    # new value expression: what the `value` field of the vw token holds, read through the locals it is built from
+    locs = {}
+    for n in sir.walk(f.body):
+        if n.get("k") == "local" and n["pat"].get("k") == "p_ident" and n.get("init") is not None:
+            locs.setdefault(n["pat"]["name"], []).append(n["init"])
+    params = set(x for x in f.param_names() if x)
+
+    def resolved(e, depth=0):
+        """source text of e with single-assignment locals replaced by their initialisers"""
+        e0 = sir.strip_ref(e)
+        if e0.get("k") == "path" and len(e0["segs"]) == 1 and e0["segs"][0] not in params and len(locs.get(e0["segs"][0], [])) == 1 and depth < 4:
+            return resolved(locs[e0["segs"][0]][0], depth + 1)
+        if e0.get("k") == "binary":
+            return "%s%s%s" % (resolved(e0["l"], depth), e0["op"], resolved(e0["r"], depth))
+        if e0.get("k") == "paren":
+            return "(%s)" % resolved(e0["e"], depth)
+        return sir.expr_str(e0).replace(" ", "")
+    tokf = None
+    for n in conv:
+        tokf = {x["name"]: x["e"] for x in n["fields"]}
     okx = False
-    dsc = "no `new_value`"
-    if nv:
-        e = nv[0]["init"]
-        s = sir.expr_str(e).replace(" ", "")
-        dsc = s
-        okx = s in ("value*100./ss.options.rpx_ratio", "value*100.0/ss.options.rpx_ratio", "value/ss.options.rpx_ratio*100.", "value*(100./ss.options.rpx_ratio)", "(value*100.)/ss.options.rpx_ratio")
-        okx = okx and not any(x.get("k") == "mcall" for x in sir.walk(e))
+    dsc = "no vw token"
+    vname = None
+    if tokf and "value" in tokf:
+        sv = resolved(tokf["value"])
+        dsc = sv
+        okx = sv in ("value*100./ss.options.rpx_ratio", "value*100.0/ss.options.rpx_ratio", "value/ss.options.rpx_ratio*100.", "value*(100./ss.options.rpx_ratio)", "(value*100.)/ss.options.rpx_ratio")
+        v0 = sir.strip_ref(tokf["value"])
+        vname = v0["segs"][0] if v0.get("k") == "path" and len(v0["segs"]) == 1 else None
     obs.append(ob("%s.expr/formula" % prefix, okx, where, "converted value is `%s` (must be value*100/ratio with no further rounding)" % dsc,
                   witness=None if okx else "0.5rpx becomes 0.066667vw instead of 0.0666667vw"))
-    # emitted token fields
-    tok = None
-    for n in sir.walk(f.body):
-        if n.get("k") == "struct" and n["path"].endswith("Dimension"):
-            fl = {x["name"]: sir.expr_str(x["e"]).replace(" ", "") for x in n["fields"]}
-            if any(x["name"] == "unit" and text_of(x["e"]) == "vw" for x in n["fields"]):
-                tok = fl
-    okt = tok is not None and tok.get("value") == "new_value" and tok.get("has_sign") == "has_sign" and tok.get("int_value") == "new_int_value"
-    obs.append(ob("%s.expr/token" % prefix, okt, where, "emitted token: %s (expected value=new_value, has_sign forwarded, unit vw)" % tok,
+    # emitted token fields: the sign is forwarded, the integer flag is derived from the converted value
+    okt = False
+    shown = None
+    if tokf:
+        shown = {k_: sir.expr_str(v_).replace(" ", "") for k_, v_ in tokf.items()}
+        iv = resolved(tokf["int_value"]) if "int_value" in tokf else ""
+        # the initialiser of the integer flag, with its own locals opened one level (`rounded` = `<value>.round()`)
+        iv_full = iv
+        for nm_, inits_ in locs.items():
+            if len(inits_) == 1 and re.search(r"\b%s\b" % re.escape(nm_), iv_full) and nm_ != vname:
+                iv_full = re.sub(r"\b%s\b" % re.escape(nm_), "(" + sir.expr_str(inits_[0]).replace(" ", "") + ")", iv_full)
+        okt = shown.get("has_sign") == "has_sign" and bool(vname) and re.search(r"\b%s\b" % re.escape(vname), iv_full) is not None and ".round()" in iv_full and "EPSILON" in iv_full
+    obs.append(ob("%s.expr/token" % prefix, okt, where, "emitted token: %s (expected: the converted value, has_sign forwarded, integer flag from the converted value, unit vw)" % shown,
                   witness=None if okt else "tiny or huge converted values snap to an integer / -0rpx becomes +0vw"))
     # the other branch forwards everything unchanged
     oth = None
